@@ -126,6 +126,11 @@ func (*grpcHandler) SetTimeout(request *http.Request) (context.Context, context.
 		// the error text is safe to send back.
 		return nil, nil, NewError(CodeInvalidArgument, err)
 	} else if err != nil {
+		if values := request.Header.Values(grpcHeaderTimeout); len(values) > 0 && values[0] == "" {
+			// Not the same as no header: the client asked for a timeout and sent
+			// neither a number nor a unit.
+			return nil, nil, errorf(CodeInvalidArgument, "gRPC protocol error: header %s has no value", grpcHeaderTimeout)
+		}
 		// err wraps errNoTimeout, nothing to do.
 		return request.Context(), nil, nil
 	}
